@@ -105,10 +105,16 @@ def stepLine (_ : Unit) (line : String) : Unit × String :=
         | some out => pure (bytesHex out)
         | none => pure "fault"
     | "vecbuf" :: codec :: pieces => do
-        -- size of the buffer the self-sizing overload allocates (`ret.resize(sz * 2 + 4)`)
+        -- Round 3b (correction): the property does not fix the SIZE of the buffer the self-sizing overload
+        -- allocates (`ret.resize(sz * 2 + 4)` today; an exact-length allocation is just as good), only that
+        -- no store leaves it and that the frame has at most 2n+4 bytes.  The compared observable is the length
+        -- of the frame the write-level model produces in its `vecBufSize n` buffer (`fault` = a store outside);
+        -- the capacity of the real vector is judged by the harness oracle and reported as a tag.
         let ps ← pieces.mapM parseBytes?
-        let _ ← ctxOf? codec
-        pure (toString (vecBufSize (ps.map List.length).sum))
+        let ctx ← ctxOf? codec
+        match gstuffingVecW ctx ps with
+        | some out => pure (toString out.length)
+        | none => pure "fault"
     | ["rtraw", "leg", cap, p] => do
         let p ← parseBytes? p
         let cap ← cap.toNat?
